@@ -146,11 +146,13 @@ def check_log_aligned(world, prop, where):
     return val
 
 
-def check_limits(world, prop, where, rows_from=0):
+def check_limits(world, prop, where, rows_from=0, containers=True):
+    """containers=False after a call that raised: the knobs may then be left at a finite-difference probe point
+    (x + step, evaluated without limit check), which is not an iterate the optimizer accepted"""
     spec = world.spec
     log = world.raw_log()
     rel = 0.0 if _unit(spec) else 1e-12
-    rows = list(enumerate(log["knobs"]))[rows_from:] + [("container", world.knob_values())]
+    rows = list(enumerate(log["knobs"]))[rows_from:] + ([("container", world.knob_values())] if containers else [])
     for i, kn in rows:
         for j, lim in enumerate(spec["limits"]):
             if lim is None:
@@ -480,7 +482,7 @@ class C10:
                 check_call_error(prop, where, c, exc)
                 # ---- limits on every new row and in the containers
                 if c[0] != "set_knob":
-                    check_limits(w, prop, where, n0)
+                    check_limits(w, prop, where, n0, containers=(exc is None))
                 if c[0] in ("step", "solve"):
                     steps_checked += check_max_step(w, prop, where, n0 + 1)
                     # ---- knobs disabled for this call keep their value (in every row of the call and at the end)
